@@ -9,8 +9,10 @@
 //   spl <min> <max> <step> <n> y1..yn <m> r1..rm
 //        grid by CubicSpline::GenerateGrid(min,max,step) (must give n points), natural cubic spline through
 //        the knot values by the real CubicSpline::Interpolate, prints  g <n grid points>  and  v <m values Calculate(r)>
+//   cqseq   a call history of linalg_constrained_qrsolve on one (rewritten or fresh) constraint matrix object, see below
 //   fconv   prints the force conversion of the lammps dump reader (tools::conv::kcal2kj / tools::conv::ang2nm)
 #include <iostream>
+#include <memory>
 #include <sstream>
 #include <stdexcept>
 #include <string>
@@ -55,6 +57,36 @@ int main() {
         std::cout << "x";
         for (Index i = 0; i < x.size(); ++i) std::cout << " " << x(i);
         std::cout << std::endl;
+      } else if (cmd == "cqseq") {
+        // cqseq <L> <m> <n> <p>  then L times:  <mode> A b C   (mode "inplace": the constraint matrix object of the
+        // previous call is rewritten entry by entry - same address, same shape; "fresh": a newly allocated object)
+        long L, m, n, p;
+        in >> L >> m >> n >> p;
+        Eigen::MatrixXd A(m, n);
+        Eigen::VectorXd b(m);
+        std::unique_ptr<Eigen::MatrixXd> C(new Eigen::MatrixXd(p, n));
+        for (long c = 0; c < L; ++c) {
+          std::string mode;
+          in >> mode;
+          A = read_matrix(in, m, n);
+          b = read_matrix(in, m, 1).col(0);
+          Eigen::MatrixXd Cin = read_matrix(in, p, n);
+          const double* before = C->data();
+          if (mode == "inplace") {
+            for (long i = 0; i < p; ++i)
+              for (long j = 0; j < n; ++j) (*C)(i, j) = Cin(i, j);
+          } else {
+            C.reset(new Eigen::MatrixXd(Cin));
+          }
+          try {
+            Eigen::VectorXd x = tools::linalg_constrained_qrsolve(A, b, *C);
+            std::cout << "x";
+            for (Index i = 0; i < x.size(); ++i) std::cout << " " << x(i);
+            std::cout << " sameaddr " << (before == C->data() ? 1 : 0) << std::endl;
+          } catch (const std::exception& e) {
+            std::cout << "exc " << e.what() << std::endl;
+          }
+        }
       } else if (cmd == "spl") {
         double mn, mx, h;
         long n, m;
